@@ -3,9 +3,11 @@
 //!   kvharness eval <prop>                   -> reads case lines on stdin, prints one `I ...` line each
 mod rng;
 mod c10;
+mod c13;
 mod ser;
 mod lay;
 mod c04;
+mod c05;
 mod lall;
 mod cfggen;
 
@@ -27,8 +29,10 @@ fn main() {
             let mut out = std::io::BufWriter::new(out.lock());
             let lines = match prop {
                 "C10" => c10::gen(tier, seed),
+                "C13" => c13::gen(tier, seed),
                 "C04" => c04::gen(tier, seed),
                 "LALL" => lall::gen(tier, seed),
+                "C05" => c05::gen(tier, seed),
                 _ => {
                     eprintln!("unknown property {prop}");
                     std::process::exit(2);
@@ -51,7 +55,8 @@ fn main() {
                 let p = prop.to_string();
                 let res = std::panic::catch_unwind(move || match p.as_str() {
                     "C10" => c10::eval(&l2),
-                    "C04" | "LALL" => lay::eval(&l2),
+                    "C13" => c13::eval(&l2),
+                    "C04" | "LALL" | "C05" | "C06" | "C17" | "C08" | "C09" => lay::eval(&l2),
                     _ => "bad-prop".to_string(),
                 });
                 let res = match res {
@@ -83,7 +88,7 @@ fn main() {
                 let l2 = line.clone();
                 let p = prop.to_string();
                 let res = std::panic::catch_unwind(move || match p.as_str() {
-                    "C04" | "LALL" => lay::expand(&l2),
+                    "C04" | "LALL" | "C05" | "C06" | "C17" | "C08" | "C09" => lay::expand(&l2),
                     _ => l2.clone(),
                 });
                 let res = match res {
